@@ -19,7 +19,9 @@ import (
 	"fmt"
 	"math"
 	"os"
+	"runtime/debug"
 	"sort"
+	"strings"
 	"sync"
 
 	"github.com/golang/geo/r1"
@@ -35,6 +37,7 @@ func init() {
 	register("canonical", opC05Canonical)
 	register("grid", opC05Grid)
 	register("region", opC05Region)
+	register("gridline", opC05GridLine)
 }
 
 // ---------------------------------------------------------------- id arithmetic (raw bits)
@@ -676,6 +679,78 @@ func opC05Grid(raw json.RawMessage, o *Out) {
 	o.sample = map[string]any{"op": "grid", "face": c.Face, "g": c.G, "rect": c.Rect, "hole": c.Hole, "cfgs": len(c.Cfgs)}
 }
 
+// opC05GridLine: a polyline through the centres of a row and a column of level-G cells.
+func opC05GridLine(raw json.RawMessage, o *Out) {
+	var c struct {
+		Face, G int
+		Rect    [4]int
+		Verts   [][2]int
+		Cells   [][2]int
+		Cfgs    [][4]int
+	}
+	if err := json.Unmarshal(raw, &c); err != nil {
+		panic(err)
+	}
+	o.nontrivial = true
+	var pl s2.Polyline
+	for _, ij := range c.Verts {
+		pl = append(pl, emb.FromFaceIJ(c.Face, c.G, ij[0], ij[1]).Point())
+	}
+	path := make([]s2.CellID, 0, len(c.Cells))
+	for _, ij := range c.Cells {
+		path = append(path, emb.FromFaceIJ(c.Face, c.G, ij[0], ij[1]))
+	}
+	desc := fmt.Sprintf("polyline through the centres of level-%d cells %v on face %d", c.G, c.Verts, c.Face)
+	// every cell the line runs through the middle of, and each of its ancestors, intersects it
+	for _, id := range path {
+		for l := 0; l <= c.G; l++ {
+			a := c05Parent(id, l)
+			if !pl.IntersectsCell(s2.CellFromCellID(a)) {
+				o.Fail("gridline/IntersectsCell-false-on-path", "IntersectsCell(%s)=false but the line runs through the middle of %s: %s", c05Fmt([]s2.CellID{a}), c05Fmt([]s2.CellID{id}), desc)
+			}
+		}
+	}
+	for _, rel := range c.Cfgs {
+		mn, mx, md, mc := c05RelCfg(c.G, rel)
+		rc := &s2.RegionCoverer{MinLevel: mn, MaxLevel: mx, LevelMod: md, MaxCells: mc}
+		cd := fmt.Sprintf("%s cfg{MinLevel:%d MaxLevel:%d LevelMod:%d MaxCells:%d}", desc, mn, mx, md, mc)
+		cls := fmt.Sprintf("md%d", md)
+		o.Count("coverer_runs")
+		for _, r := range []struct {
+			name string
+			ids  []s2.CellID
+		}{{"Covering", rc.Covering(&pl)}, {"FastCovering", rc.FastCovering(&pl)}, {"CellUnion", rc.CellUnion(&pl)}} {
+			if mx <= c.G {
+				// covering cells are not finer than the path cells: each path cell must be inside one
+				if id, bad := c05FirstUncovered(path, r.ids); bad {
+					o.Fail("gridline/"+r.name+"/covers/"+cls, "path cell %s not covered: %s=%s %s", c05Fmt([]s2.CellID{id}), r.name, c05Fmt(r.ids), cd)
+				}
+			} else {
+				m := c05Merge(r.ids)
+				for _, id := range path {
+					if !c05RangeMeets(m, c05Lo(id), c05Hi(id)) {
+						o.Fail("gridline/"+r.name+"/misses-path-cell/"+cls, "no cell of %s=%s meets path cell %s: %s", r.name, c05Fmt(r.ids), c05Fmt([]s2.CellID{id}), cd)
+						break
+					}
+				}
+			}
+			if r.name == "CellUnion" {
+				if !c05UnionLimits(r.ids, mn, mx, md) {
+					o.Fail("gridline/CellUnion/limits/"+cls, "not normalized, or a cell below MaxLevel, or its (min,mod)-denormalisation violates the limits: CellUnion=%s %s", c05Fmt(r.ids), cd)
+				}
+			} else if id, ok := c05LevelsOK(r.ids, mn, mx, md); !ok {
+				o.Fail("gridline/"+r.name+"/levels/"+cls, "cell %s (level %d) violates the level limits: %s=%s %s", c05Fmt([]s2.CellID{id}), emb.RawLevel(id), r.name, c05Fmt(r.ids), cd)
+			}
+		}
+		if mx-c.G <= 2 {
+			if in := rc.InteriorCovering(&pl); len(in) != 0 {
+				o.Fail("gridline/InteriorCovering/non-empty/"+cls, "a polyline has no interior but InteriorCovering=%s %s", c05Fmt(in), cd)
+			}
+		}
+	}
+	o.sample = map[string]any{"op": "gridline", "face": c.Face, "g": c.G, "verts": c.Verts, "cfgs": len(c.Cfgs)}
+}
+
 // c05CheckExact runs the five coverer calls on a region whose point set is exactly the
 // union of the cells exact (up to boundaries) and checks the leaf-set postconditions.
 func c05CheckExact(o *Out, op, cls, desc string, rc *s2.RegionCoverer, region s2.Region, exact []s2.CellID) {
@@ -792,6 +867,16 @@ func opC05Region(raw json.RawMessage, o *Out) {
 	if err := json.Unmarshal(raw, &c); err != nil {
 		panic(err)
 	}
+	// a panic inside golang/geo is a finding of this region kind (not of the op as a whole)
+	defer func() {
+		if r := recover(); r != nil {
+			site := panicSite(string(debug.Stack()))
+			if !strings.Contains(site, "github.com/golang/geo") {
+				panic(r)
+			}
+			o.Fail("region/"+c.Kind+"/panic/"+shortSite(site), "panic: %v at %s (kind %s place %v size %d)", r, site, c.Kind, c.Place, c.Size)
+		}
+	}()
 	p := c05PlacePoint(c.Place)
 	r := 0.0
 	if c.Size >= 0 && c.Size < len(c05Sizes) {
@@ -841,12 +926,31 @@ func opC05Region(raw json.RawMessage, o *Out) {
 		pl := s2.Polyline(vs)
 		region = &pl
 		witness = vs
-	case "point":
-		if c.Size > 1 {
-			return
+	case "fullloop", "emptyloop", "fullpolygon", "emptypolygon", "zeropolygon", "emptycap", "fullcap", "emptyrect", "fullrect":
+		switch c.Kind {
+		case "emptycap":
+			region = s2.EmptyCap()
+		case "fullcap":
+			region = s2.FullCap()
+		case "emptyrect":
+			region = s2.EmptyRect()
+		case "fullrect":
+			region = s2.FullRect()
+		case "fullloop":
+			region = s2.FullLoop()
+		case "emptyloop":
+			region = s2.EmptyLoop()
+		case "emptypolygon":
+			region = s2.PolygonFromLoops([]*s2.Loop{s2.EmptyLoop()})
+		case "zeropolygon":
+			region = &s2.Polygon{} // "the zero value of Polygon is treated as the empty polygon"
+		default:
+			region = s2.FullPolygon()
 		}
+		extent = math.Pi
+	case "point":
 		q := p
-		if c.Size == 1 {
+		if c.Size%2 == 1 {
 			q = c05Snap(p)
 			witness = []s2.Point{q}
 		}
@@ -960,7 +1064,7 @@ func opC05Region(raw json.RawMessage, o *Out) {
 		if mn == 0 {
 			c05CheckMaxCells(o, "region", cls, cd, rc, region, cov)
 		}
-		if c.Kind == "point" && c.Size == 0 {
+		if c.Kind == "point" && c.Size%2 == 0 {
 			// a raw point may lie on cell boundaries: some covering cell (closed) must contain it
 			found := false
 			for _, id := range cov {
